@@ -29,7 +29,7 @@ CLAIMED.update({
  'C04': dict(
     technique='abstract interpretation in pass-through mode (no marker, no recogniser matches) from every reachable line-start state + DECLINE-MUT typestate rule + MIR who-may-write/guarded-by rule on the ingest functions',
     text='Decides that a line without marker is claimed only by the fall-through writer, as exactly one write of raw_line after a flush; that no declining handler has modified line/raw_line; '
-         'and that ingestion rewrites raw_line only under the CR / max-line-length guards, the CR rewrite keeping both the part before and after the CR; and that the pass-through writer never writes while rendered or buffered lines of an earlier construct are pending (ORD-W at that writer). Not decided: the bytes those rewrites compute; hyperlinks added to raw commit lines on a tty.',
+         'and that ingestion rewrites raw_line only under the CR / max-line-length guards, the CR rewrite keeping both the part before and after the CR; that every cut at a position derived from max_line_length is dominated by a test that the limit is positive (0 = no truncation) and that the limit recomputed for wrapping never falls below the configured one; and that the pass-through writer never writes while rendered or buffered lines of an earlier construct are pending (ORD-W at that writer). Not decided: the bytes those rewrites compute; hyperlinks added to raw commit lines on a tty.',
     note=E1_NOTE, design='5/C04'),
  'C10': dict(
     technique='abstract interpretation (ordering rules at section-boundary code, EOF) + MIR must-assign rule for per-file fields + hash-iteration-order lint (consumer classification) + who-may-call for entropy sources',
@@ -75,14 +75,14 @@ CLAIMED.update({
  'C13': dict(technique='MIR ordering (reachability between lookups), iterator-type, guarded-by rules on option processing; phase-order rule on gather_features; must-pass rule on the recursive feature gatherer (WALK); who-may-call for raw config accessors; hash-order lint',
     text='Decides main-section-first / features-reversed / custom-before-builtin lookup order, command-line-wins for all option writes and mutable borrows of option fields in set_options, the four-phase feature gathering order, that every named feature has its own section walked for sub-features and flags, --no-gitconfig gating, env overrides before file config, and determinism of option processing.',
     note=RULE_NOTE + ' The value-level lattice of placements is not decided.', design='5/C13'),
- 'C15': dict(technique='taint rule on ansi_term::Style constructions (syntect provenance only into `foreground`, guarded by is_syntax_highlighted), who-may-call for content-sniffing lookups, must-call for highlighter reset, field coverage of the section-merging comparison (COALESCE), E1 typestate STALE-SYNTAX',
-    text='Decides that syntax colours only reach the foreground of styles that ask for syntax, that characters are merged into one painted run only when their style pairs agree on is_syntax_highlighted, diff style and syntax foreground, that the language is never sniffed from content for a file name, and that the language is re-selected after every file-name change before a hunk is painted.',
+ 'C15': dict(technique='taint rule on ansi_term::Style constructions (syntect provenance only into `foreground`, guarded by is_syntax_highlighted), who-may-call for content-sniffing lookups, must-call for highlighter reset, field coverage of the section-merging comparison (COALESCE), E1 typestate rules STALE-SYNTAX and HL-SWAP',
+    text='Decides that syntax colours only reach the foreground of styles that ask for syntax, that characters are merged into one painted run only when their style pairs agree on is_syntax_highlighted, diff style and syntax foreground, that the language is never sniffed from content for a file name, that the language is re-selected after every file-name change before a hunk is painted, and that the highlighter is never replaced while lines read earlier are still buffered unpainted.',
     note=E1_NOTE, design='5/C15'),
- 'C16': dict(technique='table agreement: the five grep regex variants assembled from MIR literals, group trees from the regex parser, vs the reader\'s (index, LineType) table, the separator printer and the try-order array; provenance rule on the rg --json submatch offset; no lazy repetition in the path group (GREEDY); mutation rule on the rg --json line text (TEXT-INTACT)',
-    text='Decides that groups 1 and 8 participate in every match, 2/4/6 are exclusive alternatives whose leading separator matches the LineType they are mapped to and printed with, 3/5/7 nest in them, the plain-text variants are tried most specific first with a greedy path group, the offset applied to rg --json submatches is measured on the tab-expanded text, and the rg --json line text loses nothing but its line terminator before the reported offsets are applied to it.',
+ 'C16': dict(technique='table agreement: the five grep regex variants assembled from MIR literals, group trees from the regex parser, vs the reader\'s (index, LineType) table, the separator printer and the try-order array; provenance rule on the rg --json submatch offset; no lazy repetition in the path group (GREEDY); mutation rule on the rg --json line text (TEXT-INTACT); who-may-touch rule for mutable state in the plain-text reader (STATELESS)',
+    text='Decides that groups 1 and 8 participate in every match, 2/4/6 are exclusive alternatives whose leading separator matches the LineType they are mapped to and printed with, 3/5/7 nest in them, the plain-text variants are tried most specific first with a greedy path group, the offset applied to rg --json submatches is measured on the tab-expanded text, and the rg --json line text loses nothing but its line terminator before the reported offsets are applied to it, and the plain-text reader keeps no state between lines.',
     note=RULE_NOTE + ' Ambiguous plain-text parses and rg --json decoding not decided.', design='5/C16'),
- 'C17': dict(technique='abstract evaluation of the colour-choice function over its finite decision domain (memoised predicates for memo lookups and colour equality), MIR edge rule for the next-colour function, must-call/provenance rules for the memo, regex group participation',
-    text='Decides the blame colour table against the specification for every feasible case, the alternative-colour rule, that the memo is updated for every non-repeat, and that the five unwrapped regex groups are mandatory.',
+ 'C17': dict(technique='abstract evaluation of the colour-choice function over its finite decision domain (memoised predicates for memo lookups and colour equality), MIR edge rule for the next-colour function, must-call/provenance rules for the memo, must-pass rule from the colour choice to the parse of that colour (PAINTED), constant full colour depth (DEPTH), regex group participation',
+    text='Decides the blame colour table against the specification for every feasible case, the alternative-colour rule, that the memo is updated for every non-repeat, that the colour painted is the colour just chosen (at full colour depth), and that the five unwrapped regex groups are mandatory.',
     note=RULE_NOTE + ' Timestamp parsing and padding not decided.', design='5/C17'),
  'C18': dict(technique='MIR unreachable-from, error-discipline (incl. no partial Write::write), BrokenPipe mapping (function summaries + edge-dominated arms, nothing printing between the failing call and the test), who-may-call process::exit (incl. nothing exit-capable in run_app while the pager handle is alive), provenance of exit status, pager selection table, ownership rule on the child stdout handle in functions that wait for the child (WAIT-CLOSED)',
     text='Decides that the renderer never prints to stdout directly or drops/unwraps output errors, that every io::Error leaving run_app has passed a BrokenPipe->Ok mapping and BrokenPipe arms are silent, exit discipline, status pass-through, the pager selection order, and that the wrapped command\'s stdout handle is moved out of the Child before delta waits for it (so the wait on the broken-pipe path can return).',
